@@ -325,6 +325,9 @@ def sd_contracts(dual=False):
                  "forall(0, gk, lambda k: self.gseq[k] is old(self.gseq[k]))",
                  "forall(gk + 1, self.gn, lambda k: self.gseq[k] is old(self.gseq[k - 1]))",
                  "forall(gk, old(self.gn), lambda k: self.gseq[k + 1] is old(self.gseq[k]))",
+                 # the insertion log: the new item is appended, earlier entries are kept
+                 "self._allTrials[vlen(self._allTrials) - 1] is newDataItem",
+                 "forall(0, old(vlen(self._allTrials)), lambda k: self._allTrials[k] is old(self._allTrials[k]))",
                  # membership is preserved (positions of the items to the right move by one)
                  "forall(0, old(self.gn), lambda k: %s)" % member("old(self.gseq[k])")]
 
